@@ -108,6 +108,18 @@ func mkComponent(wf *sp.Workflow, k *toks) *node {
 		n.pouts["param"] = c.OutParam()
 		n.pouts["out"] = c.OutParam()
 		n.other = c
+	case "pace":
+		// forwards the IPs of one upstream out-port unchanged, waiting delays[i] ms before the i-th one
+		up := k.int()
+		upport := k.str()
+		delays := []int{}
+		for k.more() {
+			delays = append(delays, k.int())
+		}
+		g := newPacer(wf, name, delays)
+		g.InPort("in").From(nodes[up].out(upport))
+		n.outs["out"] = g.OutPort("out")
+		n.other = g
 	case "pairgen":
 		// a component written against the public API that emits, in lock-step, a parameter value on "out" (parameter
 		// port) and a file on "out" (file port): v0, f0, v1, f1, ...
@@ -120,6 +132,31 @@ func mkComponent(wf *sp.Workflow, k *toks) *node {
 		panic("unknown component kind " + kind)
 	}
 	return n
+}
+
+type pacer struct {
+	sp.BaseProcess
+	delays []int
+}
+
+func newPacer(wf *sp.Workflow, name string, delays []int) *pacer {
+	g := &pacer{BaseProcess: sp.NewBaseProcess(wf, name), delays: delays}
+	g.InitInPort(g, "in")
+	g.InitOutPort(g, "out")
+	wf.AddProc(g)
+	return g
+}
+
+func (g *pacer) Run() {
+	defer g.CloseAllOutPorts()
+	i := 0
+	for ip := range g.InPort("in").Chan {
+		if i < len(g.delays) && g.delays[i] > 0 {
+			time.Sleep(time.Duration(g.delays[i]) * time.Millisecond)
+		}
+		g.OutPort("out").Send(ip)
+		i++
+	}
 }
 
 type pairGen struct {
